@@ -422,7 +422,11 @@ open CoreDhcp
 #print axioms RANGESETUP_argument_roles
 #print axioms RANGESETUP_range_wellformed
 #print axioms RANGESETUP_one_address_range_rejected
+#print axioms RangeSetup.goRoundSecond_of_nonneg
+#print axioms RangeSetup.goRoundSecond_of_accepted
+#print axioms RangeSetup.goRoundSecond_whole
 #print axioms RANGESETUP_lease_is_kept_lease
+#print axioms RANGESETUP_accepted_lease_fits_wire
 #print axioms RANGESETUP_extra_args_ignored
 #print axioms RANGESETUP_plugin_decl
 #print axioms A4.allocate_keeps_bounds
